@@ -255,6 +255,13 @@ def run_case(case, rec, mon=None):
             width = int(rng.choice([0, 1, 2, 3, 4, 5, int(rng.integers(6, 64)), int(rng.integers(64, 1200))]))
             F.GammaWindow(order, peak).get_impulse_response(width)
         F.GammaWindow().get_impulse_response(int(rng.integers(2, 500)))
+        # order and peak are documented public attributes: the window must follow a later assignment
+        for _ in range(10):
+            g = F.GammaWindow(int(rng.integers(1, 9)), float(rng.uniform(0.1, 0.95)))
+            g.get_impulse_response(int(rng.integers(2, 100)))
+            g.order, g.peak = int(rng.integers(1, 9)), float(rng.uniform(0.1, 0.95))
+            g.get_impulse_response(int(rng.integers(2, 300)))
+            rec.count("gamma_windows_reparametrised_after_construction")
         rec.sample({"kind": kind, "last": {"order": order, "peak": peak, "width": width}})
     elif kind == "circshift":
         rng = rng_for(case["seed"], "C20", case["idx"])
@@ -361,7 +368,7 @@ def run_shard(spec, rec):
 
 def finish(rec):
     monitor.require(rec, [n + ".get_impulse_response" for n in list(AREA) + ["GammaWindow"]] + ["pydrobert.speech.util.circshift_fourier", "pydrobert.speech.util.gauss_quant"])
-    for k in ("circshift_default_dft_size", "gauss_monotone_pairs", "gauss_affine_checks", "angular_roundtrips"):
+    for k in ("circshift_default_dft_size", "gauss_monotone_pairs", "gauss_affine_checks", "angular_roundtrips", "gamma_windows_reparametrised_after_construction"):
         if not rec.counters[k]:
             rec.inconc("check %s never ran" % k)
 
